@@ -352,9 +352,13 @@ class Gate:
             qobj = berkeley()
         elif self.name == "SWAPalpha":
             qobj = swapalpha(self.arg_value)
+        elif self.name == "SWAPALPHA":
+            qobj = swapalpha(self.arg_value)
         elif self.name == "SWAP":
             qobj = swap()
         elif self.name == "ISWAP":
+            qobj = iswap()
+        elif self.name == "iSWAP":
             qobj = iswap()
         elif self.name == "SQRTSWAP":
             qobj = sqrtswap()
